@@ -1,16 +1,16 @@
 (* C20 model, part 1: the integer side of the SQL scalar evaluator.
 
-   Transcribed from /repo (definitions only, no proofs):
+   Transcribed from /repo (definitions only, no proofs), as of the repaired tree (fix commits d9dc553, 44ef577):
      src/sql/predicate.rs   CompiledPredicate::eval_value (Literal / UnaryOp / BinaryOp arms),
                             eval_unary_op, eval_binary_op, eval_arithmetic_op
      src/sql/functions/numeric.rs   eval_abs eval_sign eval_mod eval_div eval_ceil eval_floor
                                     eval_round eval_truncate eval_greatest eval_least
      src/sql/functions/system.rs    eval_if eval_ifnull eval_nullif eval_coalesce eval_isnull
-     core::num  i64::pow (the run-time-exponent loop), `i64 as f64`, `f64 as i64`
+     core::num  i64::checked_pow (the loop)
 
-   The code uses the plain operators `a + b`, `a - b`, `a * b`, `a / b`, `a % b`, `-n`,
-   `n.abs()`, `a.pow(b as u32)` on i64.  Under the suite's profile (overflow checks on) these
-   PANIC when the exact result is not an i64; that is what [eval] says ([OPanic]).
+   The code uses checked_add / checked_sub / checked_mul / checked_div / checked_neg / checked_abs /
+   checked_pow and wrapping_rem: a step whose exact result is not an i64 yields None, which a SELECT
+   shows as NULL ([chk]).  No panic, no wrapped value - but not the ERROR the property asks for.
 
    Spec side ([exact], [fn_exact]): the exact integer result if it is representable, otherwise
    an error is REQUIRED ([XOver]); x / 0 and x % 0 are NULL (or an error); NULL operands give NULL. *)
@@ -35,7 +35,8 @@ Inductive val := VNull | VInt (n : Z) | VFltI (n : Z) | VText (b : list Z) | VOt
    OUnmod : input outside the part of the function this model covers (never generated) *)
 Inductive out := OVal (v : val) | ONone | OPanic | OErr | OFuel | OUnmod.
 
-Definition chk (x : Z) : out := if in_i64 x then OVal (VInt x) else OPanic.
+(* checked_*(..).map(Value::Int) *)
+Definition chk (x : Z) : out := if in_i64 x then OVal (VInt x) else ONone.
 
 (* BitwiseXor exists in eval_binary_op but the parser has no token for it: not reachable, not modelled *)
 Inductive binop := Add | Sub | Mul | Div | Rem | Pow | Shl | Shr | BAnd | BOr.
@@ -43,9 +44,10 @@ Inductive unop := Neg | Pos | BNot.
 (* ELit n: the decimal literal n >= 0 (SQL has no negative literals: -5 is Neg (ELit 5)) *)
 Inductive expr := ELit (n : Z) | ENull | EUn (o : unop) (e : expr) | EBin (o : binop) (l r : expr).
 
-(* i64::pow(self, exp: u32), run-time exponent branch:
-     if exp == 0 { return 1 }  let mut base = self; let mut acc = 1;
-     loop { if exp & 1 == 1 { acc = acc * base; if exp == 1 { return acc } }  exp /= 2; base = base * base } *)
+(* i64::checked_pow(self, exp: u32):
+     if exp == 0 { return Some(1) }  let mut base = self; let mut acc = 1;
+     loop { if exp & 1 == 1 { acc = acc.checked_mul(base)?; if exp == 1 { return Some(acc) } }
+            exp /= 2; base = base.checked_mul(base)? } *)
 Fixpoint pow_loop (fuel : nat) (base acc exp : Z) : out :=
   match fuel with
   | O => OFuel
@@ -55,18 +57,18 @@ Fixpoint pow_loop (fuel : nat) (base acc exp : Z) : out :=
         if in_i64 acc' then
           if exp =? 1 then OVal (VInt acc')
           else let b2 := base * base in
-               if in_i64 b2 then pow_loop f b2 acc' (exp / 2) else OPanic
-        else OPanic
+               if in_i64 b2 then pow_loop f b2 acc' (exp / 2) else ONone
+        else ONone
       else
         let b2 := base * base in
-        if in_i64 b2 then pow_loop f b2 acc (exp / 2) else OPanic
+        if in_i64 b2 then pow_loop f b2 acc (exp / 2) else ONone
   end.
 Definition pow_i64 (a e : Z) : out := if e =? 0 then OVal (VInt 1) else pow_loop 33 a 1 e.
 
 Definition eval_un (o : unop) (v : val) : out :=
   match v with
   | VInt n => match o with
-              | Neg => chk (- n)                    (* Some(Value::Int(-n)) *)
+              | Neg => chk (- n)                    (* n.checked_neg().map(Value::Int) *)
               | Pos => OVal (VInt n)
               | BNot => OVal (VInt (- n - 1))       (* !n *)
               end
@@ -80,11 +82,13 @@ Definition eval_bin (o : binop) (x y : val) : out :=
       | Add => chk (a + b)
       | Sub => chk (a - b)
       | Mul => chk (a * b)
-      | Div => if b =? 0 then ONone else chk (Z.quot a b)                     (* if b != 0 => a / b *)
-      | Rem => if b =? 0 then ONone
-               else if (a =? i64_min) && (b =? -1) then OPanic                (* a % b overflows like a / b *)
-               else OVal (VInt (Z.rem a b))
-      | Pow => if 0 <=? b then pow_i64 a (b mod 2 ^ 32)                       (* a.pow(b as u32) *)
+      | Div => if b =? 0 then ONone else chk (Z.quot a b)                     (* if b != 0 => a.checked_div(b) *)
+      | Rem => if b =? 0 then ONone else OVal (VInt (Z.rem a b))              (* a.wrapping_rem(b): i64::MIN % -1 = 0 *)
+      | Pow => if 0 <=? b then
+                 (if b <=? 4294967295 then pow_i64 a b                       (* u32::try_from(b): a.checked_pow(e) *)
+                  else if (a =? 0) || (a =? 1) then OVal (VInt a)            (* exponent beyond u32 *)
+                  else if a =? -1 then OVal (VInt (if Z.even b then 1 else -1))
+                  else ONone)
                else OVal VOther                                              (* (a as f64).powi(b as i32): a Float *)
       | Shl => if (0 <=? b) && (b <? 64) then OVal (VInt (wrap_s 64 (a * 2 ^ b))) else ONone
       | Shr => if (0 <=? b) && (b <? 64) then OVal (VInt (Z.shiftr a b)) else ONone
@@ -99,7 +103,12 @@ Fixpoint eval (e : expr) : out :=
   match e with
   | ELit n => if (0 <=? n) && (n <=? i64_max) then OVal (VInt n) else ONone   (* s.parse::<i64>().ok()? *)
   | ENull => OVal VNull
-  | EUn o a => match eval a with OVal v => eval_un o v | r => r end
+  | EUn o a =>
+      match o, a with
+      | Neg, ELit n =>                                  (* format!("-{}", s).parse::<i64>().ok()?: -9223372036854775808 is a literal *)
+          if (0 <=? n) && (n <=? 9223372036854775808) then OVal (VInt (- n)) else ONone
+      | _, _ => match eval a with OVal v => eval_un o v | r => r end
+      end
   | EBin o l r =>
       match eval l with
       | OVal a => match eval r with OVal b => eval_bin o a b | x => x end
@@ -110,11 +119,13 @@ Fixpoint eval (e : expr) : out :=
 (* what a SELECT of the expression shows: a None from the evaluator becomes NULL in the row *)
 Definition to_sql (o : out) : out := match o with ONone => OVal VNull | x => x end.
 
-(* every literal is one the parser turns into an i64; exponents of ^ are literals (so never negative) *)
+(* every literal is one the evaluator turns into an i64 (directly under a minus sign: up to 2^63);
+   exponents of ^ are literals (so never negative) *)
 Fixpoint wf (e : expr) : bool :=
   match e with
   | ELit n => (0 <=? n) && (n <=? i64_max)
   | ENull => true
+  | EUn Neg (ELit n) => (0 <=? n) && (n <=? 9223372036854775808)
   | EUn _ a => wf a
   | EBin Pow l r => wf l && match r with ELit n => (0 <=? n) && (n <=? i64_max) | _ => false end
   | EBin _ l r => wf l && wf r
@@ -161,7 +172,11 @@ Fixpoint exact (e : expr) : xres :=
   match e with
   | ELit n => xchk n
   | ENull => XNullP
-  | EUn o a => match exact a with XInt x => exact_un o x | r => r end
+  | EUn o a =>
+      match o, a with
+      | Neg, ELit n => xchk (- n)                                   (* a signed numeral *)
+      | _, _ => match exact a with XInt x => exact_un o x | r => r end
+      end
   | EBin o l r =>
       match exact l, exact r with
       | XInt a, XInt b => exact_bin o a b
@@ -188,51 +203,12 @@ Definition obs_ok (x : xres) (o : out) : bool :=
       end
   end.
 
-(* ---- recorded finding classes (input predicates, independent of [eval])
-   1 : evaluating the expression exactly meets a step whose operands are integers and whose exact result
-       is not an i64 (a + b, a - b, a * b, a / b, -a, a ^ b), or i64::MIN % -1: the code has no checked arithmetic
-   2 : a ^ b with b >= 2^32: the exponent is truncated by `as u32` *)
-Definition step_overflows (o : binop) (a b : Z) : bool :=
-  match o with
-  | Rem => (a =? i64_min) && (b =? -1)
-  | _ => match exact_bin o a b with XOver => true | _ => false end
-  end.
-
-Fixpoint overflow_step (e : expr) : bool :=
-  match e with
-  | ELit _ | ENull => false
-  | EUn o a => overflow_step a || match exact a with XInt x => (match exact_un o x with XOver => true | _ => false end) | _ => false end
-  | EBin o l r => overflow_step l || overflow_step r ||
-      match exact l, exact r with XInt a, XInt b => step_overflows o a b | _, _ => false end
-  end.
-
-Fixpoint big_exponent (e : expr) : bool :=
-  match e with
-  | ELit _ | ENull => false
-  | EUn _ a => big_exponent a
-  | EBin o l r => big_exponent l || big_exponent r ||
-      match o, r with Pow, ELit n => 2 ^ 32 <=? n | _, _ => false end
-  end.
-
-Definition arith_class (e : expr) : Z :=
-  if big_exponent e then 2 else if overflow_step e then 1 else 0.
+(* ---- recorded finding class (an input predicate, independent of [eval])
+   1 : the exact evaluation meets a step whose result is not an i64: the property requires an ERROR,
+       the evaluator has no error channel (eval_value returns Option) and shows NULL   (F-C20-1, narrowed) *)
+Definition arith_class (e : expr) : Z := match exact e with XOver => 1 | _ => 0 end.
 
 (* ------------------------------------------------------------------ numeric / control-flow functions on integers *)
-(* `n as f64`: round to nearest, ties to even, 53-bit significand (|n| <= 2^63, so never infinite) *)
-Definition r53 (n : Z) : Z :=
-  let a := Z.abs n in
-  if a <? 2 ^ 53 then n
-  else
-    let e := Z.log2 a - 52 in
-    let q := a / 2 ^ e in
-    let r := a mod 2 ^ e in
-    let half := 2 ^ (e - 1) in
-    let q' := if r <? half then q else if half <? r then q + 1 else if Z.even q then q else q + 1 in
-    Z.sgn n * (q' * 2 ^ e).
-
-(* `f as i64` for an integral f: saturating *)
-Definition sat64 (x : Z) : Z := if x <? i64_min then i64_min else if i64_max <? x then i64_max else x.
-
 Inductive nfn := FAbs | FSign | FMod | FDivI | FCeil | FFloor | FRound | FTrunc | FGreatest | FLeast
                | FIf | FIfnull | FNullif | FCoalesce | FIsnull.
 
@@ -280,19 +256,19 @@ Definition args_ok (args : list val) : bool :=
 Definition eval_nfn (f : nfn) (args : list val) : out :=
   if negb (args_ok args) then OUnmod else
   match f, args with
-  | FAbs, VInt n :: _ => chk (Z.abs n)                              (* n.abs() *)
+  | FAbs, VInt n :: _ => chk (Z.abs n)                              (* n.checked_abs() *)
   | FAbs, VNull :: _ => OVal VNull
   | FSign, VInt n :: _ => OVal (VInt (Z.sgn n))
   | FSign, VNull :: _ => OVal VNull
-  | FMod, a :: b :: _ =>                                             (* get_float both; b == 0.0 -> NULL; Float(a % b) *)
+  | FMod, a :: b :: _ =>                                             (* two Ints: b == 0 -> NULL; Int(a.wrapping_rem(b)) *)
       match get_num a with
       | None => ONone
       | Some x => match get_num b with
                   | None => ONone
-                  | Some y => if r53 y =? 0 then OVal VNull else OVal (VFltI (Z.rem (r53 x) (r53 y)))
+                  | Some y => if y =? 0 then OVal VNull else OVal (VInt (Z.rem x y))
                   end
       end
-  | FDivI, a :: b :: _ =>                                            (* get_int both; b == 0 -> NULL; Int(a / b) *)
+  | FDivI, a :: b :: _ =>                                            (* get_int both; b == 0 -> NULL; a.checked_div(b) *)
       match get_num a with
       | None => ONone
       | Some x => match get_num b with
@@ -302,12 +278,13 @@ Definition eval_nfn (f : nfn) (args : list val) : out :=
       end
   | FCeil, VInt n :: _ | FFloor, VInt n :: _ => OVal (VInt n)
   | FCeil, VNull :: _ | FFloor, VNull :: _ => OVal VNull
-  | FRound, a :: rest | FTrunc, a :: rest =>                         (* decimals: absent, NULL or 0 only *)
+  | FRound, a :: rest | FTrunc, a :: rest =>                         (* an Int with decimals >= 0 (absent / NULL = 0) is returned unchanged *)
       match get_num a with
       | None => ONone
       | Some x =>
           match rest with
-          | [] | VNull :: _ | VInt 0 :: _ => OVal (VInt (sat64 (r53 x)))   (* (val * 1.0).round() / 1.0 as i64 *)
+          | [] | VNull :: _ => OVal (VInt x)
+          | VInt d :: _ => if 0 <=? d then OVal (VInt x) else OUnmod        (* negative decimals: float path, not modelled *)
           | _ => OUnmod
           end
       end
@@ -332,7 +309,8 @@ Definition fn_exact (f : nfn) (args : list val) : xres :=
   | FAbs, [VInt n] => xchk (Z.abs n)
   | FSign, [VInt n] => XInt (Z.sgn n)
   | FCeil, [VInt n] | FFloor, [VInt n] => XInt n
-  | FRound, [VInt n] | FTrunc, [VInt n] | FRound, [VInt n; VInt 0] | FTrunc, [VInt n; VInt 0] => XInt n
+  | FRound, [VInt n] | FTrunc, [VInt n] => XInt n
+  | FRound, [VInt n; VInt d] | FTrunc, [VInt n; VInt d] => if 0 <=? d then XInt n else XAny
   | FAbs, [VNull] | FSign, [VNull] | FCeil, [VNull] | FFloor, [VNull] | FRound, [VNull] | FTrunc, [VNull] => XNullP
   | FMod, [VInt a; VInt b] => if b =? 0 then XDivZ else XInt (Z.rem a b)
   | FDivI, [VInt a; VInt b] => if b =? 0 then XDivZ else xchk (Z.quot a b)
@@ -356,12 +334,7 @@ Definition fn_obs_ok (x : xres) (o : out) : bool :=
   | _, _ => obs_ok x o
   end.
 
-(* finding classes of function applications:
-   1 : the exact result is not an i64 (ABS(i64::MIN), DIV(i64::MIN, -1)): unchecked `abs` / `/`
-   3 : an integer argument beyond 2^53 goes through f64 (MOD, ROUND, TRUNCATE) and comes back changed *)
-Definition through_f64 (f : nfn) : bool := match f with FMod | FRound | FTrunc => true | _ => false end.
+(* finding class of function applications:
+   1 : the exact result is not an i64 (ABS(i64::MIN), DIV(i64::MIN, -1)): NULL where an error is required *)
 Definition nfn_class (f : nfn) (args : list val) : Z :=
-  match fn_exact f args with
-  | XOver => 1
-  | _ => if through_f64 f && existsb (fun v => match v with VInt n => negb (r53 n =? n) | _ => false end) args then 3 else 0
-  end.
+  match fn_exact f args with XOver => 1 | _ => 0 end.
